@@ -13,6 +13,8 @@ for c in m["checks"]:
     cmd = c["quick_cmd"] if a.tier == "quick" else c["thorough_cmd"]
     t = time.time()
     ev = os.path.join(VERIF, c["evidence_file"])
+    if os.environ.get("VERIF_EVIDENCE_DIR"):
+        ev = os.path.join(os.environ["VERIF_EVIDENCE_DIR"], os.path.basename(c["evidence_file"]))
     if os.path.exists(ev): os.unlink(ev)
     cp = subprocess.run(cmd, shell=True, cwd=VERIF, capture_output=True, text=True, env=dict(os.environ, VERIF_SEED=a.seed, VERIF_TIER=a.tier))
     last = [l for l in cp.stdout.splitlines() if l.startswith(pid)][-1:] or [cp.stdout[-300:] + cp.stderr[-300:]]
